@@ -302,6 +302,40 @@ def r3_rollback(ctx, prog):
             r.violation(cls, site, 'setAttribute modifies %s while a transaction is open, but abortTransaction (mod-set %s) never restores it: a rejected template\'s prefix stays applied to %s objects'
                         % (sorted(containers), sorted(abw) or '{}', cls), file=f['file'], line=f['line'])
 
+        # a snapshot the abort swaps back in must be empty again afterwards (and after a commit): the next transaction fills it entry by entry, and whatever an earlier
+        # transaction left in it - the values that were rejected - would be 'restored' by the next abort
+        swaps = [c for c in calls(f['body'], short='swap') if c.get('recv') is not None]
+        snap = {x['field'] for c in swaps for side in ([c['recv']] + list(c.get('args', []))) if side is not None for x in walk(side) if x.get('k') == 'Member' and x['base'].get('k') == 'This'} - {w.split('::')[-1] for w in containers}
+        for sfield in sorted(snap):
+            emptiers = set()
+            for g in prog.functions.values():
+                if g.get('class') == cls and short(g['qname']) not in ('abortTransaction', 'commitTransaction', 'startTransaction'):
+                    oo = Outcomes(g, prog, cenv={}, record_calls={'clear'})
+                    oo.LOOP_ROUNDS = 1
+                    oo.go()
+                    if oo.outcomes and all(any(e[0] == 'call' and e[1] == 'clear' and e[2] and e[2][0] == sfield for e in oc['events']) for oc in oo.outcomes):
+                        emptiers.add(short(g['qname']))
+            for end in ('abortTransaction', 'commitTransaction'):
+                g = prog.fn(cls + '::' + end)
+                ctx.analysed(g)
+                oo = Outcomes(g, prog, cenv={'inTransaction': 1}, record_calls={'clear', 'swap'} | emptiers).go()
+                r.paths += len(oo.outcomes)
+                site2 = '%s::%s leaves the snapshot %s empty' % (cls, end, sfield)
+                bad = None
+                done = [oc for oc in oo.outcomes if oc['retv'] == 1 or oc['ret'] in ('true', None)]
+                for oc in done:
+                    rel = [e for e in oc['events'] if e[0] == 'call' and (e[1] in emptiers or (e[1] in ('clear', 'swap') and any(sfield == a for a in e[2])))]
+                    if not rel or rel[-1][1] == 'swap':
+                        bad = oc
+                        break
+                if not done:
+                    r.undecided(cls, site2, 'no completing path', file=g['file'], line=g['line'])
+                elif bad:
+                    r.violation(cls, site2, 'a completed %s leaves entries in %s (nothing empties it after the %s): the next startTransaction adds to that stale snapshot and the next abort restores values that were rejected or attributes that never existed'
+                                % (end, sfield, 'swap' if any(e[1] == 'swap' for e in bad['events']) else 'transaction'), file=g['file'], line=bad['line'], path=bad['path'])
+                else:
+                    r.ok(cls, site2, 'emptied by %s' % (sorted(emptiers) or 'clear'), file=g['file'], line=g['line'])
+
 
 def r4_store(ctx, prog):
     r = ctx.rule('C09.R4', 'the token registers a new object only after it was created valid; destroyObject works on invalid (half-written) objects too', floor=3, engine='E2')
@@ -361,6 +395,78 @@ def r4_store(ctx, prog):
         else:
             r.ok(cls, site, 'flags %s: all %d combinations remove the object' % (flags or '-', 2 ** len(flags)), file=g['file'], line=g['line'])
 
+    # ... and neither may the store they delegate to: <Store>::deleteObject(object) evaluated with the object marked invalid still reaches the removal it reaches for a valid one
+    REMOVAL = ('remove', 'erase', 'dropTables', 'deleteStatement', 'destroyObject', 'deleteObject')
+    for g in sorted(prog.functions.values(), key=lambda g: (g['file'], g['line'])):
+        if short(g['qname']) != 'deleteObject' or g.get('class') in (None, 'SoftHSM') or not g['params'] or 'OSObject' not in (g['params'][0].get('type') or ''):
+            continue
+        ctx.analysed(g)
+        reach = {}
+        for ov in (1, 0):
+            cenv = {'valid': 1, re.compile(r'\w+(->|\.)valid'): ov, re.compile(r'isValid(@\d+)?\((?!this\b).*\)'): ov}
+            o = Outcomes(g, prog, cenv=cenv, record_calls=set(REMOVAL))
+            o.LOOP_ROUNDS = 1
+            o.go()
+            r.paths += len(o.outcomes)
+            reach[ov] = [oc for oc in o.outcomes if any(e[0] == 'call' and e[1] in REMOVAL for e in oc['events'])]
+        site = '%s removes invalid objects too' % g['qname']
+        if not reach[1]:
+            r.undecided(g['qname'], site, 'no path reaches a removal even for a valid object', file=g['file'], line=g['line'])
+        elif not reach[0]:
+            r.violation(g['qname'], site, 'an object that is marked invalid is refused before anything is removed: an object file becomes invalid exactly when writing it failed, so the clean-up after a failed store leaves the half-written file on disk',
+                        file=g['file'], line=g['line'])
+        else:
+            r.ok(g['qname'], site, '%d removing paths for a valid, %d for an invalid object' % (len(reach[1]), len(reach[0])), file=g['file'], line=g['line'])
+
+
+def r5_cleanup_target(ctx, prog, rule_id='C09.R5'):
+    """The failure clean-up of the generate/derive/unwrap functions destroys the object the caller's handle variable refers to.  That is the object of THIS call only if the
+    function stored CK_INVALID_HANDLE (or the new handle) there before anything could fail: otherwise a failing call destroys whatever object the application's variable still named."""
+    r = ctx.rule(rule_id, 'the failure clean-up destroys only what this call created (the handle slot is reset before the creating call)', floor=12, engine='E3 must-write before use')
+    co = prog.fn('SoftHSM::CreateObject')
+    ctx.analysed(co)
+    hp = [pp['var']['name'] for pp in co['params'] if 'CK_OBJECT_HANDLE_PTR' in (pp.get('type') or '')]
+    o = Outcomes(co, prog, cenv={'isInitialised': 1}, record_calls=set())
+    o.CAP = 48
+    o.LOOP_ROUNDS = 1
+    o.go()
+    callee_always_writes = bool(hp) and all(any(e[0] == 'write' and e[1] == '*' + hp[0] for e in oc['events']) for oc in o.outcomes if oc['ret'] != 'CKR_ARGUMENTS_BAD')
+    for f in sorted(prog.functions.values(), key=lambda g: (g['file'], g['line'])):
+        if f.get('class') != 'SoftHSM' or f['qname'] == 'SoftHSM::CreateObject':
+            continue
+        slots = [pp['var']['name'] for pp in f['params'] if 'CK_OBJECT_HANDLE_PTR' in (pp.get('type') or '')]
+        if not slots or not any((c.get('callee') or '').startswith('HandleManager::destroyObject') for c in calls(f['body'])):
+            continue
+        ctx.analysed(f)
+        o = Outcomes(f, prog, cenv={'isInitialised': 1}, record_calls={'CreateObject', 'destroyObject'})
+        o.CAP = 32
+        o.LOOP_ROUNDS = 1
+        o.go()
+        r.paths += len(o.outcomes)
+        for P in slots:
+            site = 'handle slot *%s' % P
+            used = False
+            bad = None
+            for oc in o.outcomes:
+                evs = oc['events']
+                d = [i for i, e in enumerate(evs) if e[0] == 'call' and e[1] == 'destroyObject' and any(re.search(r'\*%s\b' % re.escape(P), a) for a in e[2])]
+                if not d:
+                    continue
+                used = True
+                c = [i for i, e in enumerate(evs) if e[0] == 'call' and e[1] == 'CreateObject' and P in e[2]]
+                w = [i for i, e in enumerate(evs) if e[0] == 'write' and e[1] == '*' + P]
+                first_risk = c[0] if c else d[0]
+                if not callee_always_writes and not (w and w[0] < first_risk):
+                    bad = (oc, evs[d[0]])
+                    break
+            if not used:
+                continue
+            if bad:
+                r.violation(f['qname'], site, 'the clean-up at line %s destroys the object *%s names, but on this path *%s was not set by this call before the object creation could fail: a failing call destroys the object the caller\'s variable still referred to'
+                            % (bad[1][3], P, P), file=f['file'], line=bad[1][3], path=bad[0]['path'])
+            else:
+                r.ok(f['qname'], site, 'reset before the creating call on every path that reaches the clean-up', file=f['file'], line=f['line'])
+
 
 def run(ctx):
     prog = ctx.prog('ossl-file')
@@ -368,9 +474,14 @@ def run(ctx):
     r2_pairing(ctx, prog)
     r3_rollback(ctx, prog)
     r4_store(ctx, prog)
+    r5_cleanup_target(ctx, prog)
 
 
 MUTANTS = [
+    dict(name='sessionobject-commit-keeps-snapshot', rule='C09.R3', file='src/lib/object_store/SessionObject.cpp', after='bool SessionObject::commitTransaction()',
+         old='\tdiscardSavedAttributes();\n', new=''),
+    dict(name='generateaes-slot-reset-after-create', rule='C09.R5', file='src/lib/SoftHSM.cpp', after='CK_RV SoftHSM::generateAES',
+         old='\t*phKey = CK_INVALID_HANDLE;\n', new=''),
     dict(name='createobject-failure-leaves-file', rule='C09.R4', file='src/lib/object_store/OSToken.cpp', after='OSObject* OSToken::createObject()',
          old='\t\ttokenDir->remove(newObject->getFilename());\n\t\ttokenDir->remove(newObject->getLockname());\n', new=''),
     dict(name='generatedes3-no-cleanup', rule='C09.R1', function='generateDES3', file='src/lib/SoftHSM.cpp', after='CK_RV SoftHSM::generateDES3',
